@@ -2,10 +2,14 @@
 
 (M)  Unroll.tla: the unrolled inner loop of MatrixDotProduct (k < col-3 step 4, tail from col - col%4, dispatch on
      (int)col-3 > 0) visits every term exactly once for every inner dimension; the classic slip (tail from col%4) is
-     run as a self-test and must be refuted.  Kernels.tla (over IntMat.tla): exact integer / rational definitions of
-     every kernel, the algebraic laws of the property ((AB)' = B'A', A(B+C) = AB+AC, transpose involution, covariance =
-     Gram matrix of the centred data hence symmetric PSD, sort = row permutation ordered by key, ...) checked as
+     run as a self-test and must be refuted.  Kernels.tla (over IntMat.tla / KernelDefs.tla): exact integer / rational
+     definitions of every kernel, the algebraic laws of the property ((AB)' = B'A', A(B+C) = AB+AC, transpose involution,
+     covariance = Gram matrix of the centred data hence symmetric PSD, sort = row permutation ordered by key, ...) checked as
      invariants over the whole enumerated shape space.
+     KernelHist.tla (round 3): the kernels as ACTIONS over an object store - what a call may depend on is the values of its
+     operands and, by the kernel's output contract (acc / ovw / rsz / app / srt), the previous state of its output, nothing
+     else.  The store machine itself is model-checked on a small universe (ZeroContract, NoHiddenState, Idempotent,
+     AccumulateTwice, TypeOK).
      Second batch (48 library functions in all): DVectNorm, DVectorDVectorDiff/Sum, DVectorMinMax, DVectorMedian,
      Matrix2Square/ABS/SQRT/LogMatrix, MatrixRowCenterScaling, MatrixSVNScaling, GenIdentityMatrix,
      MatrixGetMax/MinValueIndex, MatrixColDescStat (13 statistics), PearsonCorrelMatrix, SpearmanCorrelMatrix,
@@ -18,26 +22,73 @@
      harmonic <= arithmetic mean, Pearson symmetric with r^2 <= 1, Spearman symmetric / unit diagonal / in [-1,1] /
      equal to the Pearson correlation of the ranks / invariant under strictly increasing maps of the columns, the
      tensor transpose is an involution that permutes indices, an extreme cell exists and the scan order singles out one.
-(GEN) the same TLC run prints every case (every shape, operands from fixed fills) with the exact expected results.
+(GEN) the same TLC run prints every case (every shape, operands from fixed fills) with the exact expected results; the
+     histories of the stateful layer come from the harness's seeded generator (stratified over the input classes K1..K9).
 (C)  replay: harness/c11_replay.c runs every case through the real library (ASan/UBSan build) with operands scaled by
-     2^e, e in {-20,0,20}, one process per library function; the second batch also in mixed units (column j in unit
-     2^{-20,0,20}[j mod 3]) and a second time into an already sized, non-zero output.  Integer results must be equal,
-     quotients within 1e-12 / a few ulp, irrational results through their squares or integer brackets.
+     2^e, e in {-19,0,17} (values 1.9e-6 .. 6.6e5: inside the quantifier's 1e-6..1e6), one process per library function; sums
+     of products and averages also in a NON-DYADIC unit (0.1, 1/3, 1e-3: every operand carries a rounding error, K5; tolerance
+     (terms+4) eps sum|terms|); location-free statistics again on columns 2^19 units from the origin (K3; also as a ledger line
+     judged by TLC with the tolerance function LocTol(n, offset, spread) of TraceKernels.tla); the second batch also in mixed
+     units (column j in unit 2^{-19,0,17}[j mod 3]) and a second time into an already sized, non-zero output.  Integer results
+     must be equal, quotients within 1e-12 / a few ulp, irrational results through their squares or integer brackets.
      validate: what MatrixSort/MatrixReverseSort and MatrixGetMax/MinValueIndex returned is recorded and judged by TLC
      (TraceKernels.tla: Prop = any row permutation ordered by the key / any extreme cell, Impl = the permutation of the
      present exchange sort / the last extreme cell of the column-major scan).
+     validate (round 3, TraceKernelHist.tla): harness/c11_hist.c runs every statement kernel several times in ONE process
+     on objects living in numbered slots - same shape with other data written in place (same addresses), another shape
+     through the library's resize, the first data again in fresh objects (address re-use: ASan quarantine off); outputs
+     fresh / re-zeroed / resized / holding other data / sized for ANOTHER call / non-empty (appending kernels).  Operands are
+     integer mantissas times power-of-two units (per history, per row, per column; along the inner dimension of a product the
+     terms differ by up to 2^20 and the sum is still exact), mantissas up to 8191 (a float accumulator is exposed), MT kernels
+     at 1, 2, 3, 5, 16, 24 forced processors (empty slices, non-dividing), tensors of 1..4 slices with different row counts,
+     sort keys with ties / constant / already sorted / reverse sorted / n = 0, 1, 2.  TLC replays the log against the store
+     machine: every Call is judged against DefOf (exactly for the integer kernels, by integer brackets for quotients and
+     square roots), the laws (AB)' = B'A', A(B+C) = AB+AC, (M')' = M, covariance symmetric PSD are judged on what the CODE
+     returned (Law events).  Operands holding the MISSING code (first row / last row / both; K9) are a trace of their own
+     judged against DefMiss: outside the statement, EXTRA-FINDING only.
+
+Clause table (statement of C11 -> what decides it -> the event that carries it):
+  matrix product, every shape / inner tail     Kernels!CaseRec(MatMul) + Unroll!EachTermOnce, UnrolledIsDot; KernelHist!DefOf(ProductFns)   Res; Call(MatrixDotProduct, MatrixDotProduct_, _LOOP_UNROLLING)
+  matrix-vector, vector-matrix (and MT_)       Kernels MatVec / VecMat; KernelHist!DefOf(MatVecFns, VecMatFns), np in the event                 Res; Call
+  outer products                               Kernels Outer; KernelHist!DefOf(OuterFns), contracts ovw / rsz                                   Res; Call
+  transpose, trace                             Kernels Transpose, Trace; KernelHist!DefOf                                                       Res; Call
+  norms                                        Kernels Norm / DVector (squares, 4 ulp); KernelHist Matrixnorm, DvectorModule (sqrt brackets)     Res; Call
+  covariance                                   Kernels Covariance (CovNum) + TraceKernels!PropLoc; KernelHist MatrixCovariance                  Res, Loc; Call
+  column / row statistics                      Kernels ColStats, DescStat, DVector + PropLoc; KernelHist StatFns, DVectorMean, DVectorSDEV       Res, Loc; Call
+  sorting by a column                          TraceKernels!PropSort (IsSortOf); KernelHist!PropCall, contract srt                               Sort; Call
+  tensor-vector / tensor-matrix contractions   Kernels Tensor (TenVec, VecTen, TenMat); KernelHist!DefOf(TensorFns), ragged slices               Res; Call
+  (AB)' = B'A'                                 Kernels!LawProductTranspose (definitions); KernelHist!LawOK "ProductTranspose" (code)            Law
+  A(B+C) = AB + AC                             Kernels!LawDistributive; KernelHist!LawOK "Distributive"                                         Law
+  transpose is an involution                   Kernels!LawInvolution; KernelHist!LawOK "Involution"                                             Law
+  covariance symmetric PSD                     Kernels!LawCovariance; KernelHist!LawOK "CovSymPSD" on the recorded result; symmetry bit for bit under K3   Law; Res
+  sort = permutation of rows ordered by key    Kernels!LawSort (ExchangeSort in SortResults); PropSort / PropCall                                Sort; Call
+  "for all shapes" / "to rounding"             the enumeration constants of MC_Kernels_*.cfg, the shape tables of c11_hist.c; tolerances above
+  (before round 3 the three product laws were decided on the definitions only; no event carried them for the code)
+
+Input classes (INPUT-CLASSES.md), measured in coverage.classes: K1 all shape relations, single row / column, empty, tensors of
+     different slice shapes; K2 inner / outer dimensions 0..17 exhaustively, 15..18, 20, 24, 33 in the quick tier, 31..33 and 63..65
+     in the thorough tier (replay: XK / BSet; histories: table TA); K3 location (variance, sdev, covariance, DVectorSDEV,
+     TensorColSDEV, MatrixColDescStat); K4 three uniform scales, mixed row / column / inner units, wide mantissas; K5 non-dyadic
+     units; K6 nproc 1, 2, 3, 5, 16, 24; K7 histories as above; K8 ties, duplicates, constant column / key, zero operand, sorted
+     and reverse sorted input, n = 0, 1, 2; K9 MISSING in first / last row (EXTRA layer).  K10 (label alphabets) does not apply:
+     no kernel of C11 takes labels.
 Outside the statement (EXTRA-FINDING only, see EXTRA_ONLY): MatrixColDescStat on columns holding the MISSING code (modelled as
      the statistics of the column without that cell); PearsonCorrelMatrix (also: it returns r^2 rather than r, both accepted) and
      SpearmanCorrelMatrix; GenIdentityMatrix; MatrixGetMax/MinValueIndex; the element-wise maps; the two row scalings; the
-     right division.  The specification defines them exactly and the replay/trace validation runs for them like for the others,
+     right division; every kernel on operands holding the MISSING code (99999999 lies outside the quantifier's 1e-6..1e6).
+     The specification defines them exactly and the replay/trace validation runs for them like for the others,
      but no sentence of C11 promises them, so their deviations are reported and never judged.  On the present tree these are
      reported: extreme-cell scan skips row 0 of every column but the first (MatrixGetMax/MinValueIndex), PearsonCorrelMatrix's
-     `(int)floor(a*b) == 0` guard (undefined behaviour at scale 2^20, zero at 2^-20), SpearmanCorrelMatrix matching ranks with an
+     `(int)floor(a*b) == 0` guard (undefined behaviour at scale 2^17, zero at 2^-19), SpearmanCorrelMatrix matching ranks with an
      absolute 1e-3 tolerance, GenIdentityMatrix leaving stale off-diagonal cells in an already sized matrix (candidate repairs
      in fixes/C11-*.diff, NOT applied to /repo because no listed property is violated).
 Excluded with reason: MatrixMatrixDistance and CovarianceDistanceMap (metricspace.h: the header comments do not fix a
      definition); statistics / extreme cell / median of EMPTY operands and normalising the zero vector (undefined);
-     rows summing to zero (MatrixRowCenterScaling), constant rows (SNV) and constant columns (Pearson) are skipped.
+     rows summing to zero (MatrixRowCenterScaling), constant rows (SNV) and constant columns (Pearson) are skipped;
+     accumulating kernels into a NON-zero output (their documented contract is a zero-initialised output: Impl layer only);
+     MatrixDotProduct_LOOP_UNROLLING entered directly with an inner dimension < 4 (the dispatcher never does; its loop bound is
+     unsigned); the location class at the top scale and offsets beyond 2^19 units (values would leave 1e-6..1e6);
+     MeanCenteredMatrix (C10's territory).
 """
 import os, shutil
 from vf import build, tlc, trace
@@ -46,22 +97,32 @@ from vf.core import InfraError
 
 LEVEL = "model_checking"
 READY = True
-TECHNIQUE = ("TLC as exact oracle: Kernels.tla/IntMat.tla define every dense kernel (48 library functions) over integers / exact rationals, TLC enumerates every operand shape, "
+TECHNIQUE = ("TLC as exact oracle: Kernels.tla/KernelDefs.tla/IntMat.tla define every dense kernel (48 library functions) over integers / exact rationals, TLC enumerates every operand shape, "
              "checks 24 algebraic laws as invariants and prints operands + exact expected results; a C driver replays every case through the real library "
-             "(ASan/UBSan) at three dyadic scales, in mixed per-column units and into stale outputs; sorting results and extreme-cell positions are trace-validated by TLC; "
-             "Unroll.tla model-checks the unrolled loop's index set")
+             "(ASan/UBSan) at three dyadic scales inside 1e-6..1e6, in a non-dyadic unit, at a location 2^19 units from the origin, in mixed per-column units and into stale outputs; "
+             "sorting results, extreme-cell positions and the location ledger are trace-validated by TLC; KernelHist.tla models the kernels as actions over an object store "
+             "(output contracts acc/ovw/rsz/app/srt) and TLC replays recorded histories of calls made in one process (objects rewritten in place, resized, re-allocated at re-used "
+             "addresses; outputs fresh, re-zeroed, stale, sized for another call; mixed power-of-two units; forced processor counts) judging every call and the product / transpose / "
+             "covariance laws on what the code returned; Unroll.tla model-checks the unrolled loop's index set")
 LEVEL_TEXT = ("Every shape triple of the property's quantifier (0..17 cubed in the thorough tier; 0..9 cubed plus every inner-dimension residue up to 17 "
               "in the quick tier) is enumerated by TLC, the laws are invariants of that enumeration, and each case's exact result computed by TLC is "
-              "compared with what the real kernel returns for operands scaled by 2^-20, 1 and 2^20; the index set of the unrolled loop is model-checked "
-              "separately for every inner dimension. The second batch (norms, differences, order statistics, descriptive statistics, row scalings, element-wise maps, "
-              "Pearson/Spearman matrices, right division, tensor transpose / Kronecker product / column statistics) is enumerated over every shape 0..17 x 0..17 in the "
-              "thorough tier (11 x 11 representative sizes incl. 0, 1 and 17 in the quick tier), tensors of 1..4 slices, and additionally replayed in mixed per-column units "
-              "and into already sized non-zero outputs.")
+              "compared with what the real kernel returns for operands scaled by 2^-19, 1 and 2^17 (and, for sums of products and averages, in the units 0.1, 1/3, 1e-3); "
+              "the index set of the unrolled loop is model-checked separately for every inner dimension. The second batch (norms, differences, order statistics, descriptive "
+              "statistics, row scalings, element-wise maps, Pearson/Spearman matrices, right division, tensor transpose / Kronecker product / column statistics) is enumerated over "
+              "every shape 0..17 x 0..17 in the thorough tier (11 x 11 representative sizes incl. 0, 1 and 17 in the quick tier), tensors of 1..4 slices, and additionally replayed in "
+              "mixed per-column units and into already sized non-zero outputs. The store machine of KernelHist.tla is model-checked on a small universe (7 kernels, 3 slots, shapes 1..2, "
+              "histories of length 2 quick / 3 thorough) and about 2,600 (quick) / 21,000 (thorough) recorded kernel calls in 3- to 9-call histories are judged by TLC against it, stratified "
+              "over the input classes K1..K9 (dimensions up to 33 quick / 65 thorough).")
 LEVEL_NOTE = ("Trusts TLC's integer arithmetic, the text conversion of TLC's output, the harness's comparison (exact for integer results, 1e-12 relative "
-              "for quotients, squares for norms/SDEV, integer brackets for sqrt/log10) and ASan/UBSan as memory monitor. Operand VALUES are deterministic fills over -5..5 "
+              "for quotients, squares for norms/SDEV, integer brackets for sqrt/log10), the harness's division of power-of-two units out of the recorded results, and ASan/UBSan as "
+              "memory monitor. Operand VALUES are deterministic fills over -5..5 "
               "(1..6 for the harmonic mean, tie-free residues mod 19 for the rank correlation, strictly diagonally dominant divisors, 0..999999 for the logarithm; one per shape in the quick "
-              "tier, three in the thorough tier, each at three scales), not all values; shapes are exhaustive within the stated bounds. Tie handling of SpearmanCorrelMatrix, "
-              "the statistics of columns holding the MISSING code (EXTRA-FINDING only) and the r versus r^2 reading of PearsonCorrelMatrix are outside the verdict; "
+              "tier, three in the thorough tier) and seeded random mantissas (|m| <= 5, or <= 8191 where the sums stay below 2^30) in the histories, not all values; shapes are exhaustive "
+              "within the stated bounds for the replay direction and a stratified sample for the histories. In the stateful layer quotients and square roots are judged by integer brackets "
+              "of width 2^-sh only (sh as large as 32-bit arithmetic allows): their fine tolerances are those of the replay direction. Classes left out because the quantifier excludes them: "
+              "operands holding the MISSING code 99999999 (> 1e6: EXTRA layer only), values below 1e-6 or above 1e6 (the scales are 2^-19 and 2^17, the location offset 2^19 units is applied at "
+              "scales <= 1 only), accumulating kernels into a non-zero output (contract: zero-initialised; Impl layer), concurrent callers, K10 label alphabets (no kernel takes labels). "
+              "Tie handling of SpearmanCorrelMatrix, the statistics of columns holding the MISSING code and the r versus r^2 reading of PearsonCorrelMatrix are outside the verdict; "
               "MatrixMatrixDistance and CovarianceDistanceMap are not covered (no unambiguous definition in the header).")
 
 W = int(os.environ.get("VERIF_WORKERS", "16"))
@@ -102,6 +163,8 @@ FAMILIES = sorted(set(f for _, f in FUNCS))
 FIRST_BATCH = set(fn for fn, _ in FUNCS[:26])          # their signatures keep the two classes they always had
 # results recorded for TLC (trace validation) instead of being compared with one expected value
 RECORDED = {"MatrixSort": "Sort", "MatrixReverseSort": "Sort", "MatrixGetMaxValueIndex": "ArgExt", "MatrixGetMinValueIndex": "ArgExt"}
+# K3 ledger lines (largest relative residual of a location-shifted statistic), judged by TLC with the tolerance function LocTol of TraceKernels.tla
+LOC_FUNCS = {"MatrixColVar", "MatrixColSDEV", "MatrixCovariance", "DVectorSDEV", "TensorColSDEV", "MatrixColDescStat"}
 # behaviour the extended specification models exactly but the statement of C11 does not promise: deviations are EXTRA-FINDINGs, never a verdict
 #   MatrixColDescStat@missing: the statistics of a column that holds the MISSING code (only the .c comment mentions missing values, no header documents skipping)
 #   The statement of C11 names products, outer products, transpose, trace, norms, covariance, column/row statistics, sorting and the tensor contractions
@@ -162,8 +225,10 @@ def fail_class(fam, e):
     if fam == "MatrixDotProduct":
         return inner_class(e["k"])
     sc = e.get("scales", 2)
+    if sc == 16:
+        return "non-dyadic-unit"                # fails only where the operands carry a rounding error (unit 0.1, 1/3, 1e-3): K5
     if e.get("fn") in FIRST_BATCH:
-        return "tiny-scale" if sc == 1 else "value"      # fails only for operands scaled by 2^-20 / at the unit scale too
+        return "tiny-scale" if sc == 1 else "value"      # fails only for operands scaled by 2^-19 / at the unit scale too
     if e.get("stale"):
         return "stale-output"                  # first seen in the second call into an already sized, non-zero output
     if sc & 2:
@@ -174,10 +239,44 @@ def fail_class(fam, e):
 
 
 def _scales_text(sc):
-    names = [(1, "2^-20"), (2, "1"), (4, "2^20"), (8, "mixed per-column units")]
+    names = [(1, "2^-19"), (2, "1"), (4, "2^17"), (8, "mixed per-column units"), (16, "a non-dyadic unit (0.1, 1/3 or 1e-3)")]
     bad = [n for b, n in names if sc & b]
-    good = [n for b, n in names if not sc & b and b != 8]
+    good = [n for b, n in names if not sc & b and b not in (8, 16)]
     return "; fails at scales {%s}%s" % (", ".join(bad), (", correct at {%s}" % ", ".join(good)) if good else "")
+
+
+DEC_FUNCS = {"MatrixDotProduct", "MatrixDVectorDotProduct", "MT_MatrixDVectorDotProduct", "DVectorMatrixDotProduct", "MT_DVectorMatrixDotProduct", "RowColOuterProduct",
+             "DVectorTrasposedDVectorDotProduct", "MatrixTranspose", "MatrixTrace", "DVectorDVectorDotProd", "TransposedTensorDVectorProduct", "DvectorTensorDotProduct",
+             "TensorMatrixDotProduct", "MatrixColAverage", "MatrixRowAverage", "DVectorMean"}
+
+
+def _replay_classes(fn, fam, e):
+    """input classes (INPUT-CLASSES.md) one replayed case covers; every case runs at the three dyadic scales"""
+    r, k, c = e["r"], e["k"], e["c"]
+    out = ["K4:scales-2^-19,1,2^17"]
+    if fam == "MatrixDotProduct":
+        out.append("K2:inner-mod4=%d%s" % (k % 4, "" if k >= 4 else "-plain"))
+        out.append("K1:" + ("empty" if 0 in (r, k, c) else ("square" if r == c else ("wide" if c > r else "tall"))))
+        if k > 17:
+            out.append("K2:inner-%d" % k)
+    elif fam in ("DVector", "DVector2", "Division"):
+        out.append("K1:size%s" % ("0" if r == 0 else ("1" if r == 1 else ("2..4" if r <= 4 else ">=5"))))
+    else:
+        out.append("K1:" + shape_class(fam, r, k, c).replace(" slices of ", "-slices:").replace(" ", "-"))
+        if max(r, c) > 17:
+            out.append("K2:dimension-%d" % max(r, c))
+    if fn in DEC_FUNCS:
+        out.append("K5:non-dyadic-unit")
+    if fn.startswith("MT_"):
+        out.append("K6:nproc2,3,5")
+    if fam in BATCH2 or fn in ("TensorTranspose", "KronekerProductVectorMatrix"):
+        out.append("K7:out-stale")
+        out.append("K4:mixed-col-units")
+    if fn in LOC_FUNCS and r >= 2 and c >= 1:
+        out.append("K3:location")
+    if fn == "MatrixColDescStat@missing":
+        out.append("K9:missing-one-cell-per-odd-column")
+    return out
 
 
 def _nontrivial(fam, r, k, c):
@@ -245,19 +344,22 @@ def _drive(ctx, emits, funcs, rd, tag=""):
         crash = [e for e in ev if e.get("e") == "Crash"]
         nres = 0
         nrec = 0
+        nloc = 0
         for e in ev:
             if e["e"] == "Res":
                 nres += 1
                 ctx.case((fn, e["sd"], e["r"], e["k"] % 4, e["k"] < 4, e["c"]), _nontrivial(fam, e["r"], e["k"], e["c"]))
+                for t in _replay_classes(fn, fam, e):
+                    ctx.cls(t)
                 if e.get("drift"):
                     ctx.spec_drift("%s returns a non-zero value for a non-square %dx%d matrix (undefined by the property; only memory safety is judged)" % (fn, e["r"], e["c"]))
                 if not e["ok"]:
-                    exp_txt = "in mixed per-column units" if e["exp"] == 99 else "scaled by 2^%d" % e["exp"]
+                    exp_txt = "in mixed per-column units" if e["exp"] == 99 else ("in a non-dyadic unit (0.1, 1/3 or 1e-3)" if e["exp"] == 98 else "scaled by 2^%d" % e["exp"])
                     _report(ctx, fn, "KERNEL:%s:%s" % (fn, fail_class(fam, e)),
                             "%s on shape r=%d k=%d c=%d (%s), operands %s%s: cell %s is %s, the definition (%s) gives %s%s"
                             % (fn, e["r"], e["k"], e["c"], shape_class(fam, e["r"], e["k"], e["c"]), exp_txt,
                                ", second call into an already sized non-zero output" if e.get("stale") else "", e["at"], e["got"], e["what"], e["want"],
-                               "; correct at scales 1 and 2^20" if e.get("scales") == 1 else (_scales_text(e["scales"]) if fam in BATCH2 or e.get("scales", 0) & 8 else "")),
+                               "; correct at scales 1 and 2^17" if e.get("scales") == 1 else (_scales_text(e["scales"]) if fam in BATCH2 or e.get("scales", 0) & 24 else "")),
                             dict(kind="kernel", fn=fn, sd=e["sd"], r=e["r"], k=e["k"], c=e["c"], exp=e["exp"]))
             elif e["e"] == "Sort":
                 nrec += 1
@@ -269,6 +371,11 @@ def _drive(ctx, emits, funcs, rd, tag=""):
                 rec_events.append(e)
             elif e["e"] == "Reset":
                 nres += 1
+                rec_events.append(e)
+            elif e["e"] == "Loc":
+                nloc += 1
+                ctx.cls("K3:offset/spread>=1e5")
+                ctx.case((fn, "loc", e["sd"], e["r"], e["k"], e["c"], e["exp"]), True)
                 rec_events.append(e)
             elif e["e"] == "Note" and e.get("what") == "rsq":
                 ctx.extra("KERNEL:%s:r-squared" % fn,
@@ -286,6 +393,8 @@ def _drive(ctx, emits, funcs, rd, tag=""):
             raise InfraError("c11 harness ran %s cases of %s, %d were generated" % (done[0]["cases"], fn, len(fams[fam])))
         elif fn in RECORDED and nrec == 0 and any(_nontrivial(fam, e["r"], e["k"], e["c"]) for e in fams[fam]):
             raise InfraError("c11 harness recorded no %s event for %s" % (RECORDED[fn], fn))
+        elif fn in LOC_FUNCS and nloc == 0 and any(e["r"] >= 2 and e["c"] >= 1 for e in fams[fam]):
+            raise InfraError("c11 harness recorded no location (K3) ledger line for %s" % fn)
     return rec_events
 
 
@@ -294,13 +403,20 @@ def _check_recorded(ctx, rec_events, label="trace_sort", selftest=True):
     kinds = set(e["e"] for e in rec_events) - {"Reset"}
     if not kinds:
         return
-    ev = [{k: v for k, v in e.items() if k not in ("exp", "sd")} for e in rec_events]
+    ev = [{k: v for k, v in e.items() if k not in ("exp", "sd") and not (e["e"] == "Loc" and k in ("r", "k", "c"))} for e in rec_events]
     src = {id(a): b for a, b in zip(ev, rec_events)}
 
     def on_reject(e, idx, block):
         o = src.get(id(e), e)
         fn = e.get("fn", "MatrixSort")
-        if e.get("e") == "ArgExt":
+        if e.get("e") == "Loc":
+            ctx.violation("KERNEL:%s:location" % fn,
+                          "%s on a %sx%s operand (scale 2^%s) whose columns lie %s units from the origin (spread <= %s units, |mean|/spread >= %d): the result differs from the exact value by %.3g relative; "
+                          "the statistic does not depend on the location and the tolerance LocTol(n, offset, spread) of TraceKernels.tla is %.3g (a one-pass sum-of-squares formula loses eps*cond^2)"
+                          % (fn, o.get("r"), o.get("c"), o.get("exp"), e.get("off"), e.get("sp"), e.get("off", 0) // max(1, e.get("sp", 1)), e.get("res", 0) * 1e-12,
+                             (100 + e.get("n", 0) ** 2 * ((e.get("off", 0) // max(1, e.get("sp", 1))) // 1024) ** 2 // 200) * 1e-12),
+                          dict(kind="kernel", fn=fn, sd=o.get("sd", 0), r=o.get("r"), k=o.get("k", 0), c=o.get("c"), exp=o.get("exp", 0)))
+        elif e.get("e") == "ArgExt":
             m = e.get("m") or [[0]]
             flat = [x for row in m for x in row]
             ext = max(flat) if e.get("max") else min(flat)
@@ -328,6 +444,15 @@ def _check_recorded(ctx, rec_events, label="trace_sort", selftest=True):
             return False
         sub = [e for e in ev if e["e"] == "Sort" and e["rows"] >= 3 and e["cols"] >= 2][:30]
         trace.binding_selftest(ctx, "TraceKernels", "Trace_Kernels_prop.cfg", sub, corrupt, "binding_sort")
+    if "Loc" in kinds:
+        def corrupt_loc(evs):
+            for e in evs:
+                if e["e"] == "Loc":
+                    e["res"] = 2000000          # 2e-6 relative: what a one-pass formula loses at this conditioning
+                    return True
+            return False
+        sub = [e for e in ev if e["e"] == "Loc"][:30]
+        trace.binding_selftest(ctx, "TraceKernels", "Trace_Kernels_prop.cfg", sub, corrupt_loc, "binding_loc")
     if "ArgExt" in kinds:
         def corrupt_arg(evs):
             for e in evs:
@@ -351,9 +476,227 @@ def _check_recorded(ctx, rec_events, label="trace_sort", selftest=True):
         trace.binding_selftest(ctx, "TraceKernels", "Trace_Kernels_prop.cfg", sub, corrupt_arg, "binding_argext")
 
 
+# ---- stateful layer: histories of kernel calls over an object store (KernelHist.tla / TraceKernelHist.tla, harness/c11_hist.c) ----
+HIST_GROUPS = ["prod", "mv", "mt", "outer", "outer2", "stats", "cov", "scalar", "sort", "tensor"]
+HIST_FNS = {"MatrixDotProduct", "MatrixDotProduct_", "MatrixDotProduct_LOOP_UNROLLING", "MatrixDVectorDotProduct", "MT_MatrixDVectorDotProduct", "DVectorMatrixDotProduct",
+            "MT_DVectorMatrixDotProduct", "RowColOuterProduct", "DVectorTrasposedDVectorDotProduct", "MatrixTranspose", "MatrixTrace", "Matrixnorm", "MatrixColAverage",
+            "MatrixRowAverage", "MatrixColVar", "MatrixColSDEV", "MatrixColRMS", "MatrixCovariance", "DVectorDVectorDotProd", "DvectorModule", "DVectorMean", "DVectorSDEV",
+            "TransposedTensorDVectorProduct", "DvectorTensorDotProduct", "TensorMatrixDotProduct", "MatrixSort", "MatrixReverseSort"}
+HIST_MISS_FNS = {"MatrixDVectorDotProduct", "DVectorMatrixDotProduct", "MT_MatrixDVectorDotProduct", "MT_DVectorMatrixDotProduct", "RowColOuterProduct", "DVectorTrasposedDVectorDotProduct",
+                 "MatrixColAverage", "MatrixRowAverage", "MatrixColVar", "MatrixColSDEV", "MatrixColRMS", "DVectorDVectorDotProd", "DvectorModule"}
+# one TLC run per bundle; the self-sizing outer product has a bundle of its own so that repeated rejections there never cut the examination of the others short
+HIST_BUNDLES = [("A", ["prod", "mv", "mt"]), ("B", ["outer", "stats", "cov"]), ("C", ["scalar", "sort", "tensor"]), ("D", ["outer2"]), ("M", ["miss"])]
+HIST_TRACE_KINDS = ("Reset", "Put", "Free", "Call", "CallM", "Law")
+HIST_DROP = ("cls", "h", "om", "im", "how", "g")          # bookkeeping fields TLC does not need
+
+
+def _hist_sig(fn, e):
+    om, im, h = e.get("om", "?"), e.get("im", "?"), e.get("h", 0)
+    if om not in ("fresh", "inplace"):
+        return "KERNEL:%s:hist:out-%s" % (fn, om)          # the state of the output object decided
+    if h and im == "inplace":
+        return "KERNEL:%s:hist:in-place-operands" % fn
+    if h:
+        return "KERNEL:%s:hist:later-call" % fn
+    return "KERNEL:%s:hist:first-call" % fn
+
+
+def _hist_run(ctx, groups, rd):
+    lib = build.build_lib("san")
+    exe = build.build_harness("c11hist", ["c11_hist.c"], lib)
+    # no quarantine: a freed object's address is handed out again at once, so address re-use really happens inside a history
+    env = {"ASAN_OPTIONS": hrun.SAN_ENV["ASAN_OPTIONS"] + ":quarantine_size_mb=0"}
+    jobs = [[os.path.join(rd, "hist-%s.ndjson" % g), g, ctx.seed, 0 if ctx.quick else 1] for g in groups]
+    res = hrun.run_many(exe, jobs, timeout=1500, workers=W, env=env)
+    out = {}
+    for j, h in zip(jobs, res):
+        g = j[1]
+        if h.timed_out:
+            raise InfraError("c11_hist timed out on group %s" % g)
+        if h.rc == 2:
+            raise InfraError("c11_hist usage/format error on group %s: %s" % (g, h.err[-500:]))
+        ev = hrun.read_ndjson(j[0])
+        done = [e for e in ev if e.get("e") == "Done"]
+        crashes = [e for e in ev if e.get("e") == "Crash"]
+        extra = g == "miss"
+        for c in crashes:
+            fn = c.get("fn", "?")
+            kind = ":".join((h.san or "crash:rc%d" % h.rc).split(":")[:2])
+            sig = "%s:%s" % (_hist_sig(fn, c), kind)
+            what = ("%s dies in call %s of a history (operands %s, output %s; classes %s): %s\n%s"
+                    % (fn, c.get("h"), c.get("im"), c.get("om"), ", ".join(c.get("cls", [])), h.san or "rc %d" % h.rc, _san_brief(h.err)))
+            if extra:
+                ctx.extra(sig, what)
+            else:
+                ctx.violation(sig, what, dict(kind="hist", group=g, fn=fn))
+        if not done:
+            if not crashes:
+                _report(ctx, "MatrixColDescStat@missing" if extra else "hist", "KERNEL:hist:%s:%s" % (g, ":".join((h.san or "crash:rc%d" % h.rc).split(":")[:2])),
+                        "history group %s died (rc %d): %s\n%s" % (g, h.rc, h.san, _san_brief(h.err)), dict(kind="hist", group=g, fn="?"))
+            ctx.note("history group %s did not finish: its remaining histories were not run" % g)
+        calls = [e for e in ev if e.get("e") in ("Call", "CallM")]
+        if done and not calls:
+            raise InfraError("vacuous run: history group %s recorded no call" % g)
+        if done and done[0]["calls"] < len(calls):
+            raise InfraError("history group %s: Done counts %s calls, %d recorded" % (g, done[0]["calls"], len(calls)))
+        for e in calls:
+            ctx.case(("hist", e["fn"], e.get("om"), e.get("im"), e.get("h"), e["row"], e["col"], e.get("np"), tuple(e.get("cls", []))), e["row"] * e["col"] >= 1)
+            for t in e.get("cls", []):
+                ctx.cls(t)
+        for e in ev:
+            if e.get("e") == "Law":
+                for t in e.get("cls", []):
+                    if t.startswith("LAW:"):
+                        ctx.cls(t)
+        out[g] = [dict(e, g=g) for e in ev if e.get("e") in HIST_TRACE_KINDS]
+    return out
+
+
+def _hist_check(ctx, g, events, selftest=True):
+    """one group's histories, judged by TLC against the store machine; a rejected history (Reset block) is reported and dropped"""
+    if not any(e["e"] in ("Call", "CallM") for e in events):
+        return
+    ev = [{k: v for k, v in e.items() if k not in HIST_DROP} for e in events]
+    src = {id(a): b for a, b in zip(ev, events)}
+    extra = g == "M"
+    seen = set()
+
+    def on_reject(e, idx, block):
+        o = src.get(id(e), e)
+        grp = o.get("g", "?")
+        fn = e.get("fn", e.get("law", "?"))
+        if e.get("e") == "Law":
+            sig = "KERNEL:law:%s" % e.get("law")
+            what = "law %s does not hold on what the library returned: slots %s of the history hold %s" % (e.get("law"), e.get("s"), [b for b in block if b.get("e") == "Call"][-3:])
+        elif e.get("e") in ("Call", "CallM"):
+            sig = _hist_sig(fn, o) if not extra else "KERNEL:%s:missing-code" % fn
+            ins = [b for b in block[:block.index(e)] if b.get("e") == "Put"]
+            what = ("%s, call %s of a history in one process (operands %s, output object %s; classes %s): the output holds %dx%d %s%s after the call, "
+                    "which is not the definition applied to the operands the store machine holds (last objects placed: %s)"
+                    % (fn, o.get("h"), o.get("im"), o.get("om"), ", ".join(o.get("cls", [])), e.get("row"), e.get("col"), str(e.get("d"))[:300],
+                       "" if e.get("exact") else " (cells that are not multiples of their unit)", str([(p.get("s"), p.get("row"), p.get("col"), p.get("d")) for p in ins[-3:]])[:600]))
+        else:
+            raise InfraError("history trace of bundle %s rejected at a bookkeeping event: %s" % (g, str(e)[:300]))
+        if extra:
+            ctx.extra(sig, what)
+        else:
+            ctx.violation(sig, what, dict(kind="hist", group=grp, fn=fn))
+        dup = sig in seen
+        seen.add(sig)
+        return "dup" if dup else None
+    trace.check_trace(ctx, "TraceKernelHist", "Trace_KernelHist.cfg", "Trace_KernelHist_prop.cfg", ev, on_reject, drop="block", label="trace_hist_%s" % g, timeout=1500)
+    ctx.traces(sum(1 for e in ev if e["e"] in ("Call", "CallM")))
+    if not selftest:
+        return
+    # binding self-tests: one corrupted field per event kind must be rejected
+    def first_block_with(pred):
+        for b in tlc.split_blocks(ev):
+            if any(pred(e) for e in b):
+                return b
+        return None
+
+    def corrupt_call(evs):
+        for e in evs:
+            if e["e"] in ("Call", "CallM") and e["row"] >= 1 and e["col"] >= 1:
+                e["d"][0][0] += 3
+                return True
+        return False
+
+    def corrupt_put(evs):
+        # change an operand AFTER the fact: the recorded result no longer matches the store
+        for i, e in enumerate(evs):
+            if e["e"] == "Put" and e["s"] == 0 and e["row"] >= 1 and e["col"] >= 1 and e.get("t") != "t":
+                e["d"][0][0] += 1 if e["d"][0][0] != 99999998 else -1
+                return True
+        return False
+    b = first_block_with(lambda e: e["e"] in ("Call", "CallM") and e["row"] >= 1 and e["col"] >= 1 and e.get("fn") not in ("MatrixSort", "MatrixReverseSort"))
+    if b and g in ("A", "M"):
+        trace.binding_selftest(ctx, "TraceKernelHist", "Trace_KernelHist_prop.cfg", b, corrupt_call, "binding_hist_call_%s" % g)
+    if g == "A":
+        def corrupt_law(evs):
+            for e in evs:
+                if e["e"] == "Law" and e["law"] == "Distributive":
+                    e["s"] = [e["s"][0], e["s"][1], e["s"][1]]
+                    return True
+            return False
+        b = first_block_with(lambda e: e["e"] == "Law" and e.get("law") == "Distributive")
+        if b is None:
+            raise InfraError("no Distributive law event recorded")
+        # only meaningful when AB # AC, which holds for every non-degenerate block; pick one with cells
+        b2 = [blk for blk in tlc.split_blocks(ev) if any(e["e"] == "Law" and e.get("law") == "Distributive" for e in blk)
+              and all(e["row"] >= 2 and e["col"] >= 2 for e in blk if e["e"] == "Call")]
+        if b2:
+            trace.binding_selftest(ctx, "TraceKernelHist", "Trace_KernelHist_prop.cfg", b2[0], corrupt_law, "binding_hist_law")
+        # the contract's precondition is part of the judgement: an accumulating kernel handed a non-zero output must not be judged (pc = 1 insists)
+        def corrupt_pre(evs):
+            for e in evs:
+                if e["e"] == "Put" and e["s"] == 3 and e["row"] >= 1 and e["col"] >= 1 and not any(x for row in e["d"] for x in row):
+                    e["d"][0][0] = 1
+                    return True
+            return False
+        b4 = [blk for blk in tlc.split_blocks(ev) if any(e["e"] == "Call" and e["fn"] == "MatrixDotProduct" and e["out"] == 3 and e["row"] >= 1 and e["col"] >= 1 for e in blk)]
+        if not b4:
+            raise InfraError("no MatrixDotProduct history for the precondition self-test")
+        trace.binding_selftest(ctx, "TraceKernelHist", "Trace_KernelHist_prop.cfg", b4[0], corrupt_pre, "binding_hist_precond")
+        b3 = [blk for blk in tlc.split_blocks(ev) if any(e["e"] == "Put" and e["s"] == 0 and e["row"] >= 2 and e["col"] >= 2 for e in blk)]
+        if b3:
+            trace.binding_selftest(ctx, "TraceKernelHist", "Trace_KernelHist_prop.cfg", b3[0], corrupt_put, "binding_hist_put")
+
+
+def _hist_model(ctx):
+    """the store machine itself, model-checked on a small universe: contracts and history independence as invariants"""
+    r = tlc.run("KernelHist", "MC_KernelHist_quick.cfg" if ctx.quick else "MC_KernelHist.cfg", workers=2 if ctx.quick else min(W, 4), timeout=1500)
+    ctx.add_tlc(r, "mc_kernelhist")
+    if not r.ok:
+        raise InfraError("KernelHist.tla: %s fails in the model itself:\n%s" % (r.violation, r.trace_text[:1500]))
+    z = r.zero_actions(ignore=("TypeOK",))
+    if z:
+        raise InfraError("KernelHist.tla: actions never taken: %s" % z)
+    ctx.note("KernelHist: %d states of the store machine, contracts ZeroContract / NoHiddenState / Idempotent / AccumulateTwice hold (%.1fs)" % (r.distinct, r.wall))
+
+
+def _hist(ctx, rd):
+    from concurrent.futures import ThreadPoolExecutor
+    groups = HIST_GROUPS + ["miss"]
+    evs = _hist_run(ctx, groups, rd)
+    bundles = [(b, [e for g in gs for e in evs.get(g, [])]) for b, gs in HIST_BUNDLES]
+    with ThreadPoolExecutor(max(1, min(W, 4))) as ex:
+        list(ex.map(lambda be: _hist_check(ctx, be[0], be[1]), [be for be in bundles if be[1]]))
+    # vacuity: every kernel of the store machine, every output / operand mode and every law really occurred
+    seen_fn = set(e["fn"] for g in evs for e in evs[g] if e["e"] == "Call")
+    miss_fn = set(e["fn"] for g in evs for e in evs[g] if e["e"] == "CallM")
+    seen_om = set(e.get("om") for g in evs for e in evs[g] if e["e"] == "Call")
+    seen_law = set(e.get("law") for g in evs for e in evs[g] if e["e"] == "Law")
+    kinds = set(e["e"] for g in evs for e in evs[g])
+    crashed = any(not any(e.get("e") == "Reset" for e in evs[g]) for g in evs)
+    if not ctx.violations and not crashed:
+        lacking = (HIST_FNS - seen_fn) | (HIST_MISS_FNS - miss_fn)
+        if lacking:
+            raise InfraError("vacuous run: no history recorded for %s" % sorted(lacking))
+        if {"fresh", "rezero", "resize", "stale", "junk", "misshaped", "append", "inplace"} - seen_om:
+            raise InfraError("vacuous run: output modes never exercised: %s" % sorted({"fresh", "rezero", "resize", "stale", "junk", "misshaped", "append", "inplace"} - seen_om))
+        if {"ProductTranspose", "Distributive", "Involution", "CovSymPSD"} - seen_law:
+            raise InfraError("vacuous run: laws never recorded: %s" % sorted({"ProductTranspose", "Distributive", "Involution", "CovSymPSD"} - seen_law))
+        if {"Reset", "Put", "Free", "Call", "CallM", "Law"} - kinds:
+            raise InfraError("vacuous run: trace actions never taken: %s" % sorted({"Reset", "Put", "Free", "Call", "CallM", "Law"} - kinds))
+    ncall = sum(1 for g in evs for e in evs[g] if e["e"] in ("Call", "CallM"))
+    ctx.note("histories: %d kernel calls in %d histories judged by TLC against the store machine (groups %s)"
+             % (ncall, sum(1 for g in evs for e in evs[g] if e["e"] == "Reset"), ", ".join(groups)))
+    for g in ("prod", "cov"):
+        for e in evs.get(g, []):
+            if e["e"] == "Call" and e.get("h") == 1 and e["row"] in (2, 3) and e["col"] in (2, 3):
+                ctx.sample({k: v for k, v in e.items()}, 12)
+                break
+
+
 def run(ctx):
     ctx.assumptions += [
-        "TLC's integer arithmetic and the IntMat/Kernels definitions are the reference; shapes are exhaustive within the stated bounds, operand values are deterministic fills over -5..5 (1 per shape quick, 3 thorough) at scales 2^-20, 1, 2^20",
+        "TLC's integer arithmetic and the IntMat/KernelDefs/Kernels definitions are the reference; shapes are exhaustive within the stated bounds, operand values are deterministic fills over -5..5 (1 per shape quick, 3 thorough) at scales 2^-19, 1, 2^17 (every value inside 1e-6..1e6)",
+        "non-dyadic pass (K5): operands mantissa*u, u in {0.1, 1/3, 1e-3}, for sums of products and averages; tolerance (terms+4)*eps*sum|terms| absolute (twice the worst case of recursive summation incl. the rounding of the operands)",
+        "location pass (K3): columns moved by +-(2^19 - 4096 (j mod 8)) units at scales <= 1 (|mean|/spread 1e5..5e5, every value still inside 1e-6..1e6); variance, sdev^2, covariance within 1e-8 relative as before, and the largest relative residual is judged by TLC against LocTol(n, offset, spread) = 1e-10 + n^2 (cond/1024)^2/200 * 1e-12 (TraceKernels.tla)",
+        "stateful layer: a kernel call may depend on the values of its operands and, by its output contract, on the previous state of its output only; accumulating kernels are judged into zero-initialised outputs (their documented use), overwriting kernels into outputs of the right shape holding other data, self-sizing kernels into outputs of any shape and contents, appending kernels into empty vectors; the implementation-shaped expectations (previous output + definition, previous vector ++ definition, the permutation of the exchange sort) are SPEC-DRIFT only",
+        "stateful layer tolerances: integer kernels (products, outer products, transpose, trace, dot, tensor contractions, sort) exact; averages, variances, covariance within 2^-sh and norms / standard deviations / RMS by the bracket (g-1)^2 den <= num 4^sh <= (g+1)^2 den, g = round(x 2^sh), sh chosen per call as large as 32-bit arithmetic allows (recorded in the event)",
+        "a result without cells (0 x c, r x 0) is empty whatever its nominal shape",
         "integer-valued results are compared exactly; averages within 4 ulp; variances, SDEV^2, covariance within 1e-12 relative (floor 4^e); norms and SDEV through their squares",
         "outputs are pre-zeroed where the kernels accumulate with += ; variances/covariance need >= 2 rows, averages >= 1 row/column (outside: only memory safety is judged)",
         "ASan/UBSan build: any sanitizer report while a kernel runs on a conformable operand shape is a violation",
@@ -362,12 +705,47 @@ def run(ctx):
         "non-constant columns for Pearson, tie-free columns for Spearman, rows with non-zero sum / non-constant rows for the row scalings, strictly diagonally dominant M for v/M, log10(x+1) on 0..999999 at the unit scale only); outside: memory safety only",
         "second batch tolerances: sums/differences/min/max/median/maps/transpose/Kronecker exact; averages and x/rowsum 4 ulp; harmonic mean 1e-13; variances, CV^2, SNV^2, r^2 1e-12; rho 1e-13 absolute; v/M 1e-9 max|x|; "
         "sqrt through its square (4 ulp) and floor bracket; log10(x+1) 4 ulp where x+1 is a power of ten, a 1/3-wide integer bracket elsewhere; the zero count of MatrixColDescStat is judged at scales >= 1 only "
-        "(the routine's own 1e-6 zero threshold exceeds the 2^-20 unit)",
+        "(kept from the 2^-20 era although the 2^-19 unit now exceeds the routine's 1e-6 zero threshold)",
         "PearsonCorrelMatrix may return r or r^2 (the tree returns r^2: EXTRA-FINDING); MatrixColDescStat's column layout is the tree's (avg, median, harmonic, var pop/sample, sdev pop/sample, CV pop/sample, min, max, zeros, missing)",
         "MatrixGetMaxValueIndex/MatrixGetMinValueIndex results are judged by TLC on the recorded matrix and position (any cell holding the extreme value is accepted)",
     ]
     _unroll(ctx)
-    r = _gen(ctx, "MC_Kernels_quick.cfg" if ctx.quick else "MC_Kernels_thorough.cfg", "mc_gen_kernels")
+    # the small model check of the store machine (2 TLC workers) runs beside the enumeration of Kernels.tla (W workers); the histories and
+    # their validation then run beside the replay of the enumerated cases
+    import threading
+    side = {}
+
+    def _guard(fn, *a):
+        def run_():
+            try:
+                fn(*a)
+            except BaseException as ex:      # re-raised in the main thread
+                side.setdefault("err", ex)
+        t = threading.Thread(target=run_)
+        t.start()
+        return t
+
+    def _hist_side():
+        rd0 = tlc.rundir()
+        try:
+            _hist(ctx, rd0)
+        finally:
+            shutil.rmtree(rd0, ignore_errors=True)
+    t1 = _guard(_hist_model, ctx)
+    t2 = None
+    try:
+        r = _gen(ctx, "MC_Kernels_quick.cfg" if ctx.quick else "MC_Kernels_thorough.cfg", "mc_gen_kernels")
+        t2 = _guard(_hist_side)
+        _run_replay(ctx, r)
+    finally:
+        t1.join()
+        if t2:
+            t2.join()
+    if "err" in side:
+        raise side["err"]
+
+
+def _run_replay(ctx, r):
     fams = {}
     for e in r.emits:
         fams[e["kern"]] = fams.get(e["kern"], 0) + 1
@@ -408,6 +786,15 @@ def run(ctx):
 
 def replay(ctx, body):
     case = body.get("case") or {}
+    if case.get("kind") == "hist" and case.get("group") in HIST_GROUPS + ["miss"]:
+        rd = tlc.rundir()
+        try:
+            evs = _hist_run(ctx, [case["group"]], rd)
+            _hist_check(ctx, "M" if case["group"] == "miss" else "R", evs[case["group"]], selftest=False)
+            ctx.cov["rule"] = "replay of one group of kernel-call histories (same seed), judged by TLC against the store machine"
+        finally:
+            shutil.rmtree(rd, ignore_errors=True)
+        return
     if case.get("kind") != "kernel" or case.get("r", -1) < 0:
         return run(ctx)
     fn = case["fn"]
@@ -415,7 +802,7 @@ def replay(ctx, body):
     r_, k_, c_ = case["r"], case["k"], case["c"]
     rd = tlc.rundir()
     try:
-        consts = dict(KernelSet='{"%s"}' % fam, RSet=[], KSet=[], CSet=[], XRC=[], XK=[], DSet=[], ESet=[], SliceSet=[], SortCols=[], SeedSet=[case.get("sd", 0)], DoEmit=True)
+        consts = dict(KernelSet='{"%s"}' % fam, RSet=[], KSet=[], CSet=[], XRC=[], XK=[], DSet=[], BSet=[], ESet=[], SliceSet=[], SortCols=[], SeedSet=[case.get("sd", 0)], DoEmit=True)
         if fam == "MatrixDotProduct":
             consts.update(RSet=[r_], KSet=[k_], CSet=[c_])
         elif fam == "Tensor":
